@@ -264,32 +264,35 @@ func runC17(c *Ctx) {
 	insert := p.MustFunc("(*routeTrie).insert")
 	regMethod := p.MustFunc("(*Transcoder).registerMethod")
 	makeTarget := p.MustFunc("makeTarget")
-	svcEi := errorResultIndex(regSvc.Signature)
+	_ = errorResultIndex(regSvc.Signature)
 	// (i) unknown names
 	for _, pair := range [][2]string{{"codecs", "codec"}, {"compressors", "compressor"}} {
 		fld := p.MustField("Transcoder", pair[0])
 		found := false
-		ForEachInstr(regSvc, func(in ssa.Instruction) {
-			lk, ok := in.(*ssa.Lookup)
-			if !ok || !lk.CommaOk || LoadedField(lk.X) != fld {
-				return
-			}
-			for _, ref := range *lk.Referrers() {
-				ex, ok := ref.(*ssa.Extract)
-				if !ok || ex.Index != 1 {
-					continue
+		for _, g := range errorHelpersOf(p, regSvc) {
+			g, gEi := g, errorResultIndex(g.Signature)
+			ForEachInstr(g, func(in ssa.Instruction) {
+				lk, ok := in.(*ssa.Lookup)
+				if !ok || !lk.CommaOk || LoadedField(lk.X) != fld {
+					return
 				}
-				for _, r2 := range *ex.Referrers() {
-					if iff, ok := r2.(*ssa.If); ok {
-						good, path := succReturnsOnlyErrors(regSvc, iff.Block().Succs[1], svcEi)
-						found = true
-						c.Check(good, "C17.2", FuncName(regSvc), "unknown-"+pair[1]+"-rejected", lk.Pos(),
-							"a configured "+pair[1]+" name missing from the transcoder's table is an error",
-							"an unknown "+pair[1]+" name does not lead to an error: "+witnessString(p, path))
+				for _, ref := range *lk.Referrers() {
+					ex, ok := ref.(*ssa.Extract)
+					if !ok || ex.Index != 1 {
+						continue
+					}
+					for _, r2 := range *ex.Referrers() {
+						if iff, ok := r2.(*ssa.If); ok {
+							good, path := succReturnsOnlyErrors(g, iff.Block().Succs[1], gEi)
+							found = true
+							c.Check(good, "C17.2", FuncName(regSvc), "unknown-"+pair[1]+"-rejected", lk.Pos(),
+								"a configured "+pair[1]+" name missing from the transcoder's table is an error",
+								"an unknown "+pair[1]+" name does not lead to an error: "+witnessString(p, path))
+						}
 					}
 				}
-			}
-		})
+			})
+		}
 		if !found {
 			c.Bad("C17.2", FuncName(regSvc), "unknown-"+pair[1]+"-rejected", regSvc.Pos(), "no membership test of configured "+pair[1]+" names in the transcoder's table")
 		}
@@ -298,27 +301,30 @@ func runC17(c *Ctx) {
 	for _, fname := range []string{"protocols", "codecNames"} {
 		fld := p.MustField("serviceOptions", fname)
 		found := false
-		ForEachInstr(regSvc, func(in ssa.Instruction) {
-			b, ok := in.(*ssa.BinOp)
-			if !ok || b.Op != token.EQL {
-				return
-			}
-			lc, ok := b.X.(*ssa.Call)
-			if !ok || CalleeName(lc) != "builtin len" || LoadedFieldAny(lc.Call.Args[0]) != fld {
-				return
-			}
-			if k, isK := ConstInt(b.Y); !isK || k != 0 {
-				return
-			}
-			for _, r := range *b.Referrers() {
-				if iff, ok := r.(*ssa.If); ok {
-					good, path := succReturnsOnlyErrors(regSvc, iff.Block().Succs[0], svcEi)
-					found = true
-					c.Check(good, "C17.2", FuncName(regSvc), "empty-"+fname+"-rejected", b.Pos(),
-						"an empty "+fname+" set is an error", "an empty "+fname+" set does not lead to an error: "+witnessString(p, path))
+		for _, g := range errorHelpersOf(p, regSvc) {
+			g, gEi := g, errorResultIndex(g.Signature)
+			ForEachInstr(g, func(in ssa.Instruction) {
+				b, ok := in.(*ssa.BinOp)
+				if !ok || b.Op != token.EQL {
+					return
 				}
-			}
-		})
+				lc, ok := b.X.(*ssa.Call)
+				if !ok || CalleeName(lc) != "builtin len" || LoadedFieldAny(lc.Call.Args[0]) != fld {
+					return
+				}
+				if k, isK := ConstInt(b.Y); !isK || k != 0 {
+					return
+				}
+				for _, r := range *b.Referrers() {
+					if iff, ok := r.(*ssa.If); ok {
+						good, path := succReturnsOnlyErrors(g, iff.Block().Succs[0], gEi)
+						found = true
+						c.Check(good, "C17.2", FuncName(regSvc), "empty-"+fname+"-rejected", b.Pos(),
+							"an empty "+fname+" set is an error", "an empty "+fname+" set does not lead to an error: "+witnessString(p, path))
+					}
+				}
+			})
+		}
 		if !found {
 			c.Bad("C17.2", FuncName(regSvc), "empty-"+fname+"-rejected", regSvc.Pos(), "no test for an empty "+fname+" set")
 		}
@@ -1156,4 +1162,30 @@ func runC17VerdictPerItem(c *Ctx) {
 	if n == 0 {
 		c.Bad("C17.8", FuncName(ctor), "rejecting-count-is-per-item", ctor.Pos(), "no count-based rejection inside a loop of the configuration code any more: shape changed")
 	}
+}
+
+// errorHelpersOf: fn and the functions of the shipped packages it calls statically (two levels)
+// that return an error - the places a validation of fn may have been moved to by 'extract
+// function' (refactoring B26_r6).  C17.1 shows that an error such a helper returns is not
+// swallowed on the way up.
+func errorHelpersOf(p *Prog, fn *ssa.Function) []*ssa.Function {
+	out := []*ssa.Function{fn}
+	seen := map[*ssa.Function]bool{fn: true}
+	frontier := []*ssa.Function{fn}
+	for depth := 0; depth < 2; depth++ {
+		var next []*ssa.Function
+		for _, f := range frontier {
+			for _, call := range Calls(f) {
+				g := call.Common().StaticCallee()
+				if g == nil || seen[g] || !p.inScope(g) || len(g.Blocks) == 0 || errorResultIndex(g.Signature) < 0 {
+					continue
+				}
+				seen[g] = true
+				out = append(out, g)
+				next = append(next, g)
+			}
+		}
+		frontier = next
+	}
+	return out
 }
